@@ -8,6 +8,21 @@ _NOTE = ('trusted base: the simulator itself (SimLoop, SimKernel, fake ZeroMQ) '
 _TECH = 'deterministic simulation with fault injection'
 
 META = {
+    'C15': {
+        'level': 'exploration',
+        'text': 'daemons loaded from generated ini files, driven through '
+                'seeded sequences of add / add+start / rm / rm nostop / start '
+                '/ stop / reloadconfig over a small name pool with case '
+                'variants, the empty name and unusual names; after every '
+                'operation, at quiescence, list / status / stats / '
+                'numwatchers are compared with each other and with a '
+                'reference directory, case variants of every name must reach '
+                'the same watcher, removed names must be reusable and their '
+                'workers reaped (kept with nostop)',
+        'note': _NOTE + '; PYTHONHASHSEED fixed because reload_from_config '
+                'iterates sets of names',
+        'technique': _TECH + ' (reference-model comparison of the four '
+                     'directory views after every operation)'},
     'C11': {
         'level': 'exploration',
         'text': 'seeded sequences of requests, each corrupted in a known way '
